@@ -41,7 +41,15 @@ NegDataLits == {Not(At(a)) : a \in {d \in DataAtoms : d.k # "data"}}
 Chains2  == {Bin("then", x, y) : x \in DataLits, y \in DataLits \cup NegDataLits}
 Chains3  == {Bin("then", Bin("then", x, y), z) : x \in DataLits, y \in DataLits \cup NegDataLits, z \in DataLits}
 ChainsOr == {Bin("then", Bin("or", x, y), z) : x, y \in {At(a) : a \in {d \in DataAtoms : d.k # "data"}}, z \in DataLits}
-Chains   == Chains2 \cup Chains3 \cup ChainsOr
+\* four elements, the last one with alternatives (either direction, or an OR group): the sequences built so far are extended
+\* once per alternative
+Chains4  == {Bin("then", Bin("then", Bin("then", x, y), z), w) :
+                x \in {At([A("cdata") EXCEPT !.tok = "AA"])}, y \in {At([A("sdata") EXCEPT !.tok = "BB"])},
+                z \in {At([A("cdata") EXCEPT !.tok = "CC"])},
+                w \in {At([A("data") EXCEPT !.tok = "BB"]),
+                       Bin("or", At([A("cdata") EXCEPT !.tok = "BB"]), At([A("sdata") EXCEPT !.tok = "BB"])),
+                       Bin("or", At([A("sdata") EXCEPT !.tok = "BB"]), At([A("cdata") EXCEPT !.tok = "BB"]))}}
+Chains   == Chains2 \cup Chains3 \cup ChainsOr \cup Chains4
 
 Depth2   == {Bin(o, x, y) : o \in {"and", "or"}, x \in Lits, y \in Lits}
 SomePlain == {At(a) : a \in {b \in PlainAtoms : b.k \in {"sport", "tag", "id"}}}
